@@ -20,7 +20,9 @@ pub fn lift(v: &Value, p: u64) -> Felt {
         Some((hi, unit_log)) => {
             let q = (mag + hi / 2) / hi;
             let (r, rneg) = if mag >= q * hi { (mag - q * hi, false) } else { (q * hi - mag, true) };
-            let v = Felt::from(q) * Felt::TWO.pow(unit_log) + signed(r, rneg);
+            // unit_log = 0 stands for the multiplicative order of 2 modulo the field prime, (p - 1) / 10: 2^(x + ord) = 2^x
+            let unit = if unit_log == 0 { (Felt::ZERO - Felt::ONE).field_div(&starknet_core::types::NonZeroFelt::try_from(Felt::from(10)).unwrap()) } else { Felt::TWO.pow(unit_log) };
+            let v = Felt::from(q) * unit + signed(r, rneg);
             if neg { Felt::ZERO - v } else { v }
         }
     }
@@ -58,16 +60,20 @@ pub fn run(args: &[String]) {
         let case: Value = serde_json::from_str(line).unwrap();
         let p = case["P"].as_u64().unwrap();
         let is_hi = case["devs"].as_array().map(|d| d.iter().any(|x| x[0].as_str().map(|n| n.starts_with("hi.")).unwrap_or(false))).unwrap_or(false);
-        let units: Vec<Option<u64>> = if is_hi { vec![Some(64), Some(128), Some(192)] } else { vec![None] };
+        let units: Vec<Option<u64>> = if is_hi { vec![Some(64), Some(128), Some(192), Some(0)] } else { vec![None] };
         for unit in units {
         HI.with(|h| h.set(unit.map(|u| (case["hi"].as_u64().expect("hi unit"), u))));
         let mut case = case.clone();
         if let Some(u) = unit { case["hi_unit_log2"] = json!(u); }
         let mut cfg = config_of(&case["cfg"], p);
         // "inv.*": a quotient in the field has no image under the lift; it is recomputed at the real prime
-        if let Some(ds) = case["devs"].as_array() { for d in ds { if d[0] == "inv.nQueries" {
-            if let Ok(inv) = cfg.log_n_cosets.inverse().ok_or(()) { cfg.n_queries = Felt::from(d[1].as_u64().unwrap()) * inv; }
-        } } }
+        // (only when it is the last deviation that sets n_queries: a later one overrides it, as in the model)
+        if let Some(ds) = case["devs"].as_array() {
+            let last_nq = ds.iter().rposition(|d| matches!(d[0].as_str(), Some("inv.nQueries") | Some("nQueries") | Some("hi.nQueries")));
+            if let Some(i) = last_nq { if ds[i][0] == "inv.nQueries" {
+                if let Some(inv) = cfg.log_n_cosets.inverse() { cfg.n_queries = Felt::from(ds[i][1].as_u64().unwrap()) * inv; }
+            } }
+        }
         let sec = lift(&case["sec"], p);
         let (n1, n2) = (lift(&case["n1"], p), lift(&case["n2"], p));
         cases += 1;
